@@ -26,12 +26,12 @@ def world():
 
 
 def _worker(job):
-    fq, known = job
+    fq, known, pid = job
     try:
         from pyvc.driver import verify_function
         w = world()
         c = w.contracts[fq]
-        rep = verify_function(w, c, known=known)
+        rep = verify_function(w, c, known=known, only_prop=pid)
         rep["status"] = "ok"
         return rep
     except Exception as e:  # checker failure, never a violation
@@ -58,12 +58,16 @@ def run_property(pid, tier, seed):
     w = world()
     known_all = load_known()
     known = [k for k in known_all if k.get("property") == pid and k.get("status", "open") == "open"]
-    fqs = list(spec["functions"])
+    fqs = list(spec.get("functions") or [])
+    if not fqs:
+        fqs = [k for k, c in w.contracts.items() if pid in c.all_props() and not c.trusted]
     missing = [fq for fq in fqs if fq not in w.contracts]
     if missing:
         print(f"CHECKER-ERROR property={pid} no contract registered for {missing}")
         return 3
-    jobs = [(fq, known) for fq in fqs]
+    # heaviest first so that the pool is well packed
+    fqs.sort(key=lambda k: -w.contracts[k].cost_hint)
+    jobs = [(fq, known, pid) for fq in fqs]
     nproc = min(len(jobs), int(os.environ.get("VERIF_JOBS", "16")))
     if not os.environ.get("VERIF_INPROC"):
         ctx = mp.get_context("fork")
@@ -90,7 +94,7 @@ def run_property(pid, tier, seed):
         if r["status"] != "ok":
             continue
         for ob in r["obligations"]:
-            if spec.get("only_tagged") and pid not in ob["props"]:
+            if pid not in ob["props"]:
                 continue
             relevant.append((r, ob))
     for lr in lemma_reports:
@@ -137,9 +141,14 @@ def run_property(pid, tier, seed):
             print(f"KNOWN-FINDING: property={pid} {kid} {k['what']}")
             printed.add(kid)
     replay_files = []
+    from pyvc.replay import find_failing_input
+    searched = {}
     for r, ob in violations:
         f0 = next(f for f in ob["failed"] if not f.get("known"))
         path = os.path.join("replays", pid, sanitize(ob["name"]) + ".json")
+        if r["function"] not in searched:
+            searched[r["function"]] = find_failing_input(r["function"], ob["name"], f0.get("model"))
+        f0["replay"] = searched[r["function"]]
         rec = {
             "property": pid, "obligation": ob["name"], "kind": ob["kind"], "function": r["function"],
             "source": f"{r.get('file')}:{ob.get('line') or r.get('line')}",
